@@ -183,11 +183,26 @@ func (r *engRun) loadAfterCrash(point string) {
 // loadAfter: "the persisted build state stays loadable" -- an index-preferring load and a full load, in fresh processes
 func (r *engRun) loadAfter(what string) {
 	for _, mode := range []string{"loadindex", "load"} {
+		before, _ := r.records()
 		rep, _, hung := r.child(mode, "", nil, "")
 		if hung || rep == nil {
 			r.oracle("C03 the state left by %s does not load (%s): no report (hung=%v)", what, mode, hung)
 		} else if rep.LoadErr != "" {
 			r.oracle("C03 the state left by %s does not load (%s): %s", what, mode, rep.LoadErr)
+		} else {
+			// a load builds nothing: whatever it rewrites (the refresh of a record), a target marked for re-run stays
+			// marked and a record keeps or lacks its stamp as before
+			after, _ := r.records()
+			was := map[int][3]int{}
+			for _, x := range before {
+				was[x[0]] = x
+			}
+			for _, x := range after {
+				if b, ok := was[x[0]]; ok && b != x {
+					r.oracle("C03 a load (%s) of the state left by %s changed the record of %s: re-run mark %d -> %d, has a stamp %d -> %d",
+						mode, what, r.p.label(x[0]), b[1], x[1], b[2], x[2])
+				}
+			}
 		}
 	}
 }
